@@ -28,8 +28,9 @@ META = {
                  "functions via api.Evaluate and on ingest.CollectionFeature",
 }
 
-KINDS = ["int", "float", "str", "id"]
-CMP = {"int", "float", "str", "id"}          # kinds b6.Less / b6.Greater order
+KINDS = ["int", "float", "str", "id", "bigint"]
+CMP = {"int", "float", "str", "id", "bigint"}          # kinds b6.Less / b6.Greater order
+BIG = 1 << 53        # bigint: integers around 2^53, where neighbouring integers are not distinct as float64
 SRC = ["call", "lit", "feat"]
 THR = 0
 
@@ -38,6 +39,8 @@ def conc(rank, kind):
     """Order-preserving, injective concretisation of a rank in a kind (identity for ints)."""
     if kind == "int":
         return {"t": "int", "v": rank}
+    if kind == "bigint":
+        return {"t": "int", "v": BIG + rank}
     if kind == "float":
         return {"t": "float", "v": rank + 0.5}
     if kind == "str":
@@ -125,7 +128,7 @@ def kinds_after(op, args, kinds):
     if op == "count-keys":
         return (kk, "int")
     if op == "top":
-        return kinds if vk in ("int", "float") else None
+        return kinds if vk in ("int", "float", "bigint") else None
     if op == "join-missing":
         return kinds if kk in CMP else None
     raise ValueError(op)
@@ -344,7 +347,7 @@ def run(ctx):
              "pipelines (first failing stage is the culprit). FindValue/FindValues: every feature of <= 4 items over 3 keys "
              "x 2 values x 5 probe keys, unsorted, Sort()ed and flagged-sorted, against the linear scan. "
              "distinct = distinct (input, call[, call]) and (feature, key) combinations.",
-        assumptions=["keys and values of one collection are of one kind (int, float, string or feature ID)",
+        assumptions=["keys and values of one collection are of one kind (int, int around 2^53, float, string or feature ID)",
                      "top is only called on int/float values, sum-by-key on int values, join-missing on key-sorted operands (documented preconditions)",
                      "order of the results of sum-by-key, count-values, count-keys and top is not asserted; with ties at the cut, top may keep any of the tied items",
                      "map-items returns the items the function returns (vm_test.go TestMapItems), although its doc string also says 'keys are unmodified'",
